@@ -433,6 +433,14 @@ func (c *Ctx) writeEvidence(chk Check, cases int, wall float64) error {
 	}
 	for k, v := range c.sets {
 		cov["distinct_"+k] = len(v)
+		if len(v) <= 24 {
+			var vals []string
+			for x := range v {
+				vals = append(vals, x)
+			}
+			sort.Strings(vals)
+			cov["values_"+k] = vals
+		}
 	}
 	cov["cases"] = cases
 	cov["evaluations"] = c.evals
